@@ -304,3 +304,57 @@ def run_shard(args):
             model_bad.append({'case': r['case'], 'diff': json.loads(json.dumps(m, default=str))})
     stats['distinct_nontrivial'] = len(distinct)
     return stats, oracle_bad, model_bad, recs[0]['case']
+
+
+def run_typed_inverse(seed):
+    """an inverse field with an argument typed as a FORWARD node of its own layer (`def a(a, b: Output)`, `b: Input`): it receives the forward
+    value of the same call (after / before the layer), not what comes back under that name (C10: each inverse sees the values of its own
+    layer as computed in the forward pass)"""
+    from .paths import use_repo
+    use_repo()
+    rng = random.Random(seed)
+    kind = rng.choice(['Output', 'Input'])
+    both_back = rng.random() < 0.5          # does `f` return the name `b` as well?
+    src = f'''
+from connectome import Transform, inverse, Output, Input
+class TL(Transform):
+    __inherit__ = True
+    def a(a):
+        return ('fa', a)
+    def b(b):
+        return ('fb', b)
+    @inverse
+    def a(a, b: {kind}):
+        return ('ia', a, b)
+    @inverse
+    def b(b):
+        return ('ib', b)
+'''
+    ns = {}
+    problems = []
+    try:
+        exec(src, ns)
+        layer = ns['TL']()
+        if rng.random() < 0.5:
+            import connectome as c
+            layer = c.Chain(layer, c.Transform(__inherit__=True))
+        if both_back:
+            def f(a, b):
+                return ('Fa', a, b), ('Fb', a, b)
+            g = layer._decorate(['a', 'b'], ['a', 'b'], final='a')(f)
+            fa, fb = ('fa', '$a'), ('fb', '$b')
+            want = ('ia', ('Fa', fa, fb), fb if kind == 'Output' else '$b')
+        else:
+            def f(a):
+                return ('F', a)
+            g = layer._decorate('a', 'a')(f)
+            want = ('ia', ('F', ('fa', '$a')), ('fb', '$b') if kind == 'Output' else '$b')
+        import inspect
+        sig = list(inspect.signature(g).parameters)
+        got = g(**{p: '$' + p for p in sig})
+        if got != want:
+            problems.append({'kind': kind, 'msg': f'inverse `a(a, b: {kind})` (f returns {"a and b" if both_back else "a"}): the decorated function returned {got!r}, '
+                                                  f'forward -> f -> inverse with the forward {kind.lower()} `b` of the same call gives {want!r}'})
+    except Exception as e:
+        problems.append({'kind': kind, 'msg': f'inverse with an argument typed {kind} (f returns {"a and b" if both_back else "a"}): raised {exc_name(e)}: {str(e)[:150]}'})
+    return problems
